@@ -127,9 +127,11 @@ def compare_layouts(m, chunk):
                     outp = par.apply(df, stype)
                     err = outp.values - R
                     scale = np.ones((len(R), 1)) if stype == "rate" else dtv[:, None]
+                    # all matrices first, then use them (a result must not be a view of a buffer the next call refills)
+                    Hs = [em.output_matrix(R[row] / scale[row]) for row in range(len(R))]
                     for row in range(len(R)):
                         rr = R[row] / scale[row]
-                        hx = em.output_matrix(rr) @ x if nS else np.zeros(3)
+                        hx = Hs[row] @ x if nS else np.zeros(3)
                         if not np.allclose(hx, err[row] / scale[row], rtol=1e-12, atol=1e-12):
                             prob = "output_matrix(r) @ x != simulated %s error at row %d: %r vs %r" % (stype, row, hx, err[row] / scale[row])
                             break
